@@ -35,27 +35,27 @@ Theorem C03_fw_once :
 Proof. exact FwOnce.fw_once. Qed.
 
 (** The FULL model [Engine/Model.v] ([run_history] itself) on programs with Normal, Firewall and
-    PROJECTION queries: at most once per request and per epoch, and every re-execution is
+    PROJECTION queries and unordered groups: at most once per request and per epoch, and every re-execution is
     justified - some dependency READ BY THE PREVIOUS RUN ([MReads]: the read list of the
     from-scratch evaluation of the body under the inputs of that time) has a different
     from-scratch value now.  This includes the projections re-visited by backward projection
     (a pedantic repair since /repo 2e5f36f: no unconditional re-run). *)
 Theorem C03_model_once :
-  forall p ops i j m r, wf_model p -> Forall op_in_scope ops ->
+  forall p ops i j m r, wf_model_g p -> Forall op_in_scope ops ->
     let rs := run_history p init_state ops in
     (nth_error rs i = Some r -> NoDup (r_execs r)) /\
     ((j < i)%nat -> executed_at rs i m -> executed_at rs j m -> ~ no_session_between ops j i).
-Proof. exact MdlOnce.model_once. Qed.
+Proof. exact MdlOnce.model_once_g. Qed.
 
 Theorem C03_model_justified :
-  forall p ops i j m, wf_model p -> Forall op_in_scope ops -> model_sessions_fuelled p ops i ->
+  forall p ops i j m, wf_model_g p -> Forall op_in_scope ops -> model_sessions_fuelled p ops i ->
     let rs := run_history p init_state ops in
     executed_at rs i m -> (j < i)%nat -> executed_at rs j m ->
     (forall k, (j < k < i)%nat -> ~ executed_at rs k m) ->
     exists d, MReads p (inputs_after (firstn (S j) ops)) m d /\
               forall v, MdlSpec p (inputs_after (firstn (S j) ops)) d v ->
                         ~ MdlSpec p (inputs_after (firstn (S i) ops)) d v.
-Proof. exact MdlJust.model_justified. Qed.
+Proof. exact MdlJust.model_justified_g. Qed.
 
 Print Assumptions C03_core_once.
 Print Assumptions C03_model_once.
